@@ -2,7 +2,11 @@ package sim
 
 import (
 	"fmt"
+	"math/big"
+
+	"github.com/ethereum/go-ethereum/common"
 	"sort"
+	"strings"
 
 	sdk "github.com/cosmos/cosmos-sdk/types"
 
@@ -25,6 +29,7 @@ type acceptedClaim struct {
 type c03Model struct {
 	claims map[string][]acceptedClaim // chain|nonce
 	done   map[string]bool
+	recCalls, recVal uint64
 }
 
 func newC03(st *BridgeSt) *c03Model {
@@ -46,8 +51,21 @@ func (m *c03Model) check(r *Run, c *bridgeChecks, s *Step, o *Outcome) []Violati
 		key := fmt.Sprintf("%s|%d", ch.Name, t.Tx.A.U64("n"))
 		m.claims[key] = append(m.claims[key], acceptedClaim{Oracle: ch.oracleKey(w, t.Tx.A.Int("o")).Bech(), Variant: t.Tx.A.Str("variant"), VVal: t.Tx.A.Str("vval"), N: t.Tx.A.U64("n"), O: t.Tx.A.Int("o")})
 	}
+	if r.Prop == "C03" {
+		cnt := w.App.EvmKeeper.GetState(w.Ctx(), RecorderAddr(w), common.BigToHash(big.NewInt(2))).Big().Uint64()
+		val := w.App.EvmKeeper.GetState(w.Ctx(), RecorderAddr(w), common.BigToHash(big.NewInt(0))).Big().Uint64()
+		if cnt > m.recCalls {
+			r.Probe("recorder-contract-called")
+			m.recCalls = cnt
+		}
+		if val > m.recVal {
+			r.Probe("recorder-contract-received-value")
+			m.recVal = val
+		}
+	}
 	for _, ch := range st.Chains {
 		post := c.post[ch.Name]
+		vs = append(vs, m.collisions(r, ch, post)...)
 		// which attestation did each accepted claim join (by its vote)
 		byNonce := map[uint64][]AttView{}
 		for _, a := range post.Atts {
@@ -120,6 +138,88 @@ func (m *c03Model) check(r *Run, c *bridgeChecks, s *Step, o *Outcome) []Violati
 		}
 	}
 	return vs
+}
+
+// collisions: for the event that is next to be observed, every single-field / re-split variant of
+// the honest claim whose attestation identity (the hash the module files votes under) equals the
+// honest one is executed on a branch next to the honest claim: the effects must be equal.
+func (m *c03Model) collisions(r *Run, ch *ChainSt, post *ChainView) []Violation {
+	var vs []Violation
+	w := r.W
+	n := post.LastObs + 1
+	ev := ch.Ext.Event(n)
+	key := fmt.Sprintf("collide|%s|%d", ch.Name, n)
+	if ev == nil || m.done[key] {
+		return nil
+	}
+	m.done[key] = true
+	honest := ch.buildClaim(w, ev, ch.bridgerKey(w, 0).Bech(), "")
+	if honest == nil {
+		return nil
+	}
+	type cand struct{ f, v string }
+	var cands []cand
+	fields := claimFields(honest)
+	for _, fa := range fields {
+		for _, fb := range fields {
+			if fa == fb {
+				continue
+			}
+			for k := 1; k <= 3; k++ {
+				cands = append(cands, cand{"resplit", fmt.Sprintf("%s:%s:%d", fa, fb, k)})
+			}
+		}
+	}
+	hh := safeHash(honest)
+	var refDump Dump
+	var refErr error
+	haveRef := false
+	for _, cd := range cands {
+		cl := ch.buildClaim(w, ev, ch.bridgerKey(w, 0).Bech(), "")
+		if mutateClaim(cl, cd.f, cd.v) != nil || safeValidate(cl) != nil {
+			continue
+		}
+		r.Probe("c03-variant-hashed")
+		if string(safeHash(cl)) != string(hh) || cl.String() == honest.String() {
+			continue
+		}
+		r.Probe("c03-variant-same-identity")
+		r.Nontrivial = true
+		if !haveRef {
+			refDump, refErr = m.branchEffect(r, ch, ev, acceptedClaim{N: n})
+			haveRef = true
+			if refErr != nil {
+				r.Probe("c03-honest-branch-error")
+			}
+		}
+		d, e := m.branchEffect(r, ch, ev, acceptedClaim{Variant: cd.f, VVal: cd.v, N: n})
+		diff := Diff(refDump, d)
+		if len(diff) > 0 || (refErr == nil) != (e == nil) {
+			msg := fmt.Sprintf("%s: two claims for nonce %d that differ by %s %s are filed under the same attestation but execute differently", ch.Name, n, cd.f, cd.v)
+			if len(diff) > 0 {
+				msg += ": " + diff[0].String()
+			}
+			vs = append(vs, viol("same-attestation-same-effect", ev.Kind+"/"+cd.f+"/"+fieldsOf(cd.v), "%s", msg))
+		}
+	}
+	return vs
+}
+
+func fieldsOf(spec string) string {
+	p := strings.Split(spec, ":")
+	if len(p) >= 2 {
+		return p[0] + "+" + p[1]
+	}
+	return spec
+}
+
+func safeHash(cl cctypes.ExternalClaim) (h []byte) {
+	defer func() {
+		if recover() != nil {
+			h = nil
+		}
+	}()
+	return cl.ClaimHash()
 }
 
 // branchEffect executes the claim variant on a branch of the committed state and returns
